@@ -702,6 +702,7 @@ pub fn gen_c20(prop: &str, tier: Tier, rng: &mut Rng, seed: u64, run: u64) -> Pl
     let partition_p = if rng.chance(0.33) { 0.12 } else { 0.0 };
     let mut cut = false;
     let mut last_enc_t: Option<i64> = None;
+    let mut last_enc_vals: Option<(f32, f32, f32)> = None;
     // in a quarter of the runs the inner objects talk back to their wrapper's terminal from inside
     // the calls the wrapper makes on them
     let feedback_p = if rng.chance(0.25) { 0.3 } else { 0.0 };
@@ -765,14 +766,36 @@ pub fn gen_c20(prop: &str, tier: Tier, rng: &mut Rng, seed: u64, run: u64) -> Pl
                     } else if rng.chance(0.7) {
                         // (an encoder whose clock is coarser than the polling loop delivers a NEW value under
                         // the stamp of its previous reading now and then)
+                        let mut reused_stamp = false;
                         let t = match last_enc_t {
-                            Some(t) if !monotone && rng.chance(0.1) => t,
+                            Some(t) if !monotone && rng.chance(0.1) => {
+                                reused_stamp = true;
+                                t
+                            }
                             _ => st.next(rng),
                         };
                         last_enc_t = Some(t);
                         // half of the readings only become current inside the inner update()
                         let code = if rng.chance(0.5) { "ENCP" } else { "ENC" };
-                        let (p, v, a) = (rng.moderate_f32(), rng.moderate_f32(), rng.moderate_f32());
+                        // components are zeros of either sign now and then; a reading that reuses the previous
+                        // stamp is sometimes the previous reading with the signs of its zeros flipped (equal
+                        // under ==, different as data)
+                        let comp = |rng: &mut Rng| -> f32 {
+                            if rng.chance(0.12) {
+                                if rng.chance(0.5) { 0.0 } else { -0.0 }
+                            } else {
+                                rng.moderate_f32()
+                            }
+                        };
+                        let (mut p, mut v, mut a) = (comp(rng), comp(rng), comp(rng));
+                        if let (true, Some((lp, lv, la))) = (reused_stamp && rng.chance(0.5), last_enc_vals) {
+                            let flip = |x: f32| if x == 0.0 { -x } else { x };
+                            (p, v, a) = (flip(lp), flip(lv), flip(la));
+                            if p != 0.0 && v != 0.0 && a != 0.0 {
+                                v = if rng.chance(0.5) { 0.0 } else { -0.0 };
+                            }
+                        }
+                        last_enc_vals = Some((p, v, a));
                         if rng.chance(0.12) {
                             // the very same datum also reaches the link from the other side (a second
                             // encoder on the shaft, a seeded starting pose): the wrapper must still
